@@ -44,6 +44,16 @@ type Session struct {
 	Calls  []Call `json:"calls"`
 }
 
+// legal loops that must simply end (tpl "N:<code>"): the body lengthens the collection it ranges over (reached through
+// a pointer), a long but bounded for, nested loops
+var benignSnippets = map[string]string{
+	"grow-range":     "forRange k := fobj.Items {\n fobj.Grow()\n }",
+	"grow-range-map": "forRange k := fobj.MM {\n fobj.PutM()\n }",
+	"long-for":       "for k = 0; k < 3000; k += 1 {\n t = k\n }",
+	"nested-for":     "for k = 0; k < 30; k += 1 {\n for j = 0; j < 30; j += 1 {\n t = k + j\n }\n }",
+	"range-in-for":   "for k = 0; k < 3; k += 1 {\n forRange j := fobj.Items {\n t = j\n }\n fobj.Grow()\n }",
+}
+
 // fault class and syntactic position -> statement(s) that fail at run time (all of them compile)
 var faultSnippets = map[string]string{
 	"arith-asg":             `t = 1 + "s"`,
@@ -157,20 +167,29 @@ type FObj struct {
 	In     *FIn
 	NilIn  *FIn
 	hidden int64
+	Items  []int64
+	MM     map[string]int64
 }
+
+func (f *FObj) Grow() { f.Items = append(f.Items, int64(len(f.Items))) }
+func (f *FObj) PutM() { f.MM[fmt.Sprintf("k%d", len(f.MM))] = 1 }
 
 func (f *FObj) M() int64         { return f.I }
 func (f *FObj) MI(x int64) int64 { return x }
 func (f *FObj) Boom() int64      { panic("method panics") }
 
+type Cnt struct{ I int64 }
+
 func faultData() map[string]interface{} {
 	var nilobj *FObj
 	var nilfn func() int64
 	return map[string]interface{}{
-		"fobj": &FObj{I: 5, In: &FIn{I: 6}}, "nilobj": nilobj, "farr": []int64{1, 2, 3}, "fempty": []int64{},
+		"fobj": &FObj{I: 5, In: &FIn{I: 6}, Items: []int64{1, 2}, MM: map[string]int64{"a": 1}}, "nilobj": nilobj, "farr": []int64{1, 2, 3}, "fempty": []int64{},
 		"fms": map[string]int64{"k": 1}, "fval": FObj{I: 1}, "fnum": int64(4), "zero": int64(0),
 		"boomfn": func() bool { panic("injected function panics") }, "nilfn": nilfn,
 		"ev": func(v interface{}) {}, "ev2": func(a, b int64) {}, "evint": func(a int64) {},
+		"cnt_r1": &Cnt{}, "cnt_r2": &Cnt{}, "cnt_r3": &Cnt{}, "cnt_r4": &Cnt{}, "cnt_r5": &Cnt{}, "cnt_r6": &Cnt{}, "cnt_r7": &Cnt{},
+		"cnt_r8": &Cnt{}, "cnt_r9": &Cnt{}, "cnt_r10": &Cnt{}, "cnt_r11": &Cnt{}, "cnt_r12": &Cnt{}, "cnt_r13": &Cnt{}, "cnt_r14": &Cnt{},
 	}
 }
 
@@ -180,6 +199,9 @@ func ruleText(rs []Rule) string {
 		n := r.Name
 		fmt.Fprintf(&sb, "rule \"%s\" \"desc-%s\" salience %d\nbegin\n", n, n, r.Sal)
 		fmt.Fprintf(&sb, "  enter(\"%s\")\n", n)
+		if strings.HasPrefix(r.Tpl, "N:") {
+			fmt.Fprintf(&sb, "  %s\n", benignSnippets[r.Tpl[2:]])
+		}
 		if strings.HasPrefix(r.Tpl, "F:") {
 			// C09: a fault of the given class and position inside this rule, fired when the call says so
 			fmt.Fprintf(&sb, "  if doFault(\"%s\") {\n    prefail(\"%s\")\n    %s\n  }\n", n, n, faultSnippets[r.Tpl[2:]])
@@ -191,7 +213,12 @@ func ruleText(rs []Rule) string {
 		} else {
 			fmt.Fprintf(&sb, "  if doFail(\"%s\") { boom(\"%s\") }\n", n, n)
 		}
-		fmt.Fprintf(&sb, "  if doRet(\"%s\") { v = leaveRet(\"%s\")\n return v }\n", n, n)
+		if r.RK == "loop" {
+			// the returned value is an injected field that the step of the enclosing loop would change
+			fmt.Fprintf(&sb, "  if doRet(\"%s\") {\n    for cnt_%s.I = 0; cnt_%s.I < 5; cnt_%s.I += 1 {\n      if cnt_%s.I == 2 {\n        leaveRetV(\"%s\", 2)\n        return cnt_%s.I\n      }\n    }\n  }\n", n, n, n, n, n, n, n)
+		} else {
+			fmt.Fprintf(&sb, "  if doRet(\"%s\") { v = leaveRet(\"%s\")\n return v }\n", n, n)
+		}
 		fmt.Fprintf(&sb, "  if doRetNil(\"%s\") { leaveNil(\"%s\")\n return }\n", n, n)
 		fmt.Fprintf(&sb, "  if doFailRet(\"%s\") { return boom(\"%s\") }\n", n, n)
 		if r.Tpl == "B" {
@@ -250,6 +277,9 @@ func apis() map[string]interface{} {
 			v := cur.val(n)
 			cur.o.EmitEnd(obs.Event{"ev": "end", "r": n, "out": "ret", "val": fmt.Sprint(v), "st": cur.tagset[n]})
 			return v
+		},
+		"leaveRetV": func(n string, v int64) {
+			cur.o.EmitEnd(obs.Event{"ev": "end", "r": n, "out": "ret", "val": fmt.Sprint(v), "st": cur.tagset[n]})
 		},
 		"leaveNil": func(n string) {
 			cur.o.EmitEnd(obs.Event{"ev": "end", "r": n, "out": "ret", "val": "nil", "st": cur.tagset[n]})
